@@ -17,6 +17,9 @@ package main
 //   c03RefWrites  every statement of the file that can change a Ref text: an assignment / inc-dec whose left-hand
 //                 side is a selector `.Ref`, `&E.Ref`, an assignment through `*E`; `accounted` = it is the restore
 //                 statement of a block of its own target, or an overwrite of the owner inside the owner's block.
+//   c03DocWrites  every store of the file into a field or an element (assignment, inc/dec), every `delete(m, k)` and every
+//                 `.Set(…)` / `.Delete(…)` call: function, kind, leftmost identifier of what is written into, its text,
+//                 and whether it lies inside the reference block whose owner is that identifier
 // A shape the rule cannot read (overwrite inside a loop, the variable v re-assigned, a multi-value assignment to Ref)
 // is an explicit `unrecognised` row.
 
@@ -147,6 +150,25 @@ func c03Clauses(b *ast.BlockStmt, isOW func(ast.Stmt) bool) (bool, bool, bool) {
 	return h, r, lp
 }
 
+// c03Base: the leftmost identifier of an expression (what is written into)
+func c03Base(e ast.Expr) string {
+	switch x := e.(type) {
+	case *ast.Ident:
+		return x.Name
+	case *ast.SelectorExpr:
+		return c03Base(x.X)
+	case *ast.IndexExpr:
+		return c03Base(x.X)
+	case *ast.StarExpr:
+		return c03Base(x.X)
+	case *ast.ParenExpr:
+		return c03Base(x.X)
+	case *ast.CallExpr:
+		return "call:" + c03Base(x.Fun)
+	}
+	return "?"
+}
+
 func extractC03RefWrites(repo string) (string, error) {
 	fset := token.NewFileSet()
 	file, err := parser.ParseFile(fset, filepath.Join(repo, "openapi3", "loader.go"), nil, 0)
@@ -165,7 +187,7 @@ func extractC03RefWrites(repo string) (string, error) {
 		fn, owner, v string
 		body          *ast.BlockStmt
 	}
-	var blocksOut, topsOut, writesOut, keysOut []string
+	var blocksOut, topsOut, writesOut, keysOut, docOut []string
 	for _, decl := range file.Decls {
 		fd, ok := decl.(*ast.FuncDecl)
 		if !ok || fd.Body == nil {
@@ -272,6 +294,49 @@ func extractC03RefWrites(repo string) (string, error) {
 				topsOut = append(topsOut, fmt.Sprintf("  ⟨%q, %q, %d, %s, %s, %s, %s, %s⟩ -- %s", b.fn, b.owner, idx, lb(has), lb(ret), lb(c03HasReturn(st)), lb(restore), lb(litCopy), pos(st.Pos())))
 			}
 		}
+		// every store into a field or element, delete and Set call of the function
+		ownerBlock := func(p token.Pos, base string) bool {
+			for _, b := range blocks {
+				if b.body.Pos() <= p && p < b.body.End() && b.owner == base {
+					return true
+				}
+			}
+			return false
+		}
+		docRow := func(kind string, e ast.Expr, p token.Pos) {
+			t := txt(e)
+			if len(t) > 60 {
+				t = t[:60]
+			}
+			base := c03Base(e)
+			docOut = append(docOut, fmt.Sprintf("  ⟨%q, %q, %q, %q, %s⟩ -- %s", fn, kind, base, t, lb(ownerBlock(p, base)), pos(p)))
+		}
+		ast.Inspect(fd.Body, func(n ast.Node) bool {
+			switch x := n.(type) {
+			case *ast.AssignStmt:
+				for _, l := range x.Lhs {
+					switch l.(type) {
+					case *ast.SelectorExpr:
+						docRow("field", l, x.Pos())
+					case *ast.IndexExpr:
+						docRow("elem", l, x.Pos())
+					}
+				}
+			case *ast.IncDecStmt:
+				switch x.X.(type) {
+				case *ast.SelectorExpr, *ast.IndexExpr:
+					docRow("field", x.X, x.Pos())
+				}
+			case *ast.CallExpr:
+				if id, ok := x.Fun.(*ast.Ident); ok && id.Name == "delete" && len(x.Args) > 0 {
+					docRow("delete", x.Args[0], x.Pos())
+				}
+				if se, ok := x.Fun.(*ast.SelectorExpr); ok && (se.Sel.Name == "Set" || se.Sel.Name == "Delete") {
+					docRow("set", se.X, x.Pos())
+				}
+			}
+			return true
+		})
 		// every statement that can change a Ref text
 		ast.Inspect(fd.Body, func(n ast.Node) bool {
 			switch x := n.(type) {
@@ -327,11 +392,13 @@ func extractC03RefWrites(repo string) (string, error) {
 	b.WriteString("-- GENERATED by go/cmd/extract (table C03RefWrites) from openapi3/loader.go — do not edit\n")
 	b.WriteString("namespace KinModel.Gen\n\n")
 	b.WriteString("structure C03RefTop where\n  fn : String\n  owner : String\n  idx : Nat\n  overwrite : Bool\n  retAfter : Bool\n  hasReturn : Bool\n  restore : Bool\n  litCopy : Bool\n  deriving DecidableEq, Repr\n\n")
+	b.WriteString("structure C03DocWrite where\n  fn : String\n  kind : String\n  base : String\n  lhs : String\n  inOwnerBlock : Bool\n  deriving DecidableEq, Repr\n\n")
 	b.WriteString("structure C03RefWrite where\n  fn : String\n  kind : String\n  target : String\n  rhs : String\n  accounted : Bool\n  deriving DecidableEq, Repr\n\n")
-	fmt.Fprintf(&b, "-- rows: %d\n", len(blocksOut)+len(keysOut)+len(topsOut)+len(writesOut))
+	fmt.Fprintf(&b, "-- rows: %d\n", len(blocksOut)+len(keysOut)+len(topsOut)+len(writesOut)+len(docOut))
 	b.WriteString("def c03RefBlocks : List (String × String × String × Nat) := [\n" + join(blocksOut) + "]\n\n")
 	b.WriteString("def c03RefKeys : List (String × String × String × String × Nat) := [\n" + join(keysOut) + "]\n\n")
 	b.WriteString("def c03RefTops : List C03RefTop := [\n" + join(topsOut) + "]\n\n")
-	b.WriteString("def c03RefWrites : List C03RefWrite := [\n" + join(writesOut) + "]\n\nend KinModel.Gen\n")
+	b.WriteString("def c03RefWrites : List C03RefWrite := [\n" + join(writesOut) + "]\n\n")
+	b.WriteString("def c03DocWrites : List C03DocWrite := [\n" + join(docOut) + "]\n\nend KinModel.Gen\n")
 	return b.String(), nil
 }
